@@ -81,9 +81,9 @@ MANIFEST = {
                   'sparse grids, shared objects, re-allocated time arrays, reused output arrays and coinciding channel names, '
                   'and a decimal-duration stream compared under tolerance 2^-30.',
     'level_note': 'Trusted: Coq kernel, numpy/sympy semantics as modelled, harness (py_build, printers), Python hash. Float '
-                  'rounding not modelled (dyadic inputs exact; decimal stream under a declared tolerance, counted apart; its '
-                  'known finding is classified by an exact reference and excuses only samples on an inner table entry). '
-                  '8 known findings (4 more were repaired in /repo: 01efa2c, 33916af, 55554c3, 4b5e473).',
+                  'rounding not modelled (dyadic inputs exact; decimal stream under a declared tolerance, counted apart; nothing '
+                  'is excused there since its finding was repaired). '
+                  '7 known findings (5 more were repaired in /repo: 01efa2c, 33916af, 55554c3, 4b5e473, e2c868b).',
     'technique': 'Coq proof over a hand-written model + correspondence check + denotational oracle',
     'design_ref': 'DESIGN.md §5 C08, §4.3, §4.4, Appendix C, D4',
 }
@@ -2069,7 +2069,7 @@ def classify(case, obs):
     k = case['kind']
     r = case.get('r') or case.get('r1')
     if k == 'dec':
-        return 'C08-nested-junction-float-rounding' if _dec_excused(case, obs) else None
+        return None     # round 4: C08-nested-junction-float-rounding is repaired (55554c3 + e2c868b): nothing is excused any more
     if k == 'hist' and _shadowed_linear_after_producer(r) and not _hist_inplace(case):
         return 'C08-trafo-cache-shadowed-byproduct'
     if k == 'sample' and has_kind(r, COMPOSITE) and 'built' in obs:
@@ -2139,113 +2139,6 @@ def _rdur(r):
     if k in ('trans', 'functor', 'arith'):
         return _rdur(r[2])
     return _rdur(r[1])
-
-
-def _dec_eval(r, c, t, off, short):
-    """EXACT value of the plain composite a decimal-stream recipe describes, channel c, local time t; `off` = the
-    absolute start of this node (exact).  With `short`, a table that does NOT start at absolute time 0 answers a time
-    exactly on one of its inner entries with the END of the earlier segment: the one place where the implementation may
-    legitimately differ (the table gets the local time t - float(start), which can be one ulp below float(entry time))."""
-    k = r[0]
-    if k == 'const':
-        return F(r[2])
-    if k == 'func':
-        return sum((F(a) * t ** i for i, a in enumerate(r[1])), F(0))
-    if k == 'table':
-        ent = [(F(a), F(b), i) for a, b, i in r[3]]
-        def seg(j, tt):          # segment between entry j-1 and entry j
-            (t0, v0, _), (t1, v1, i) = ent[j - 1], ent[j]
-            return v0 if i == 'h' else v1 if i == 'j' else (v1 - v0) / (t1 - t0) * (tt - t0) + v0
-        if short and off != 0:
-            for j in range(1, len(ent) - 1):
-                if ent[j][0] == t:
-                    return seg(j, t)
-        val = None
-        for j in range(1, len(ent)):
-            if ent[j - 1][0] <= t <= ent[j][0]:
-                val = seg(j, t)
-        return val
-    if k == 'seq':
-        start = F(0)
-        for i, x in enumerate(r[2]):
-            d = _rdur(x)
-            if t < start + d or i == len(r[2]) - 1:
-                return _dec_eval(x, c, t - start, off + start, short)
-            start += d
-    if k == 'rep':
-        d = _rdur(r[2])
-        j = min(int(t / d), r[3] - 1)
-        return _dec_eval(r[2], c, t - j * d, off + j * d, short)
-    if k == 'multi':
-        for x in r[2]:
-            if c in _rchannels(x):
-                return _dec_eval(x, c, t, off, short)
-        return None
-    if k == 'arith':
-        inl, inr = c in _rchannels(r[2]), c in _rchannels(r[4])
-        a = _dec_eval(r[2], c, t, off, short) if inl else None
-        b = _dec_eval(r[4], c, t, off, short) if inr else None
-        if inl and inr:
-            return None if a is None or b is None else (a + b if r[3] == '+' else a - b)
-        if inl:
-            return a
-        return None if b is None else (b if r[3] == '+' else -b)
-    if k == 'functor':
-        v = _dec_eval(r[2], c, t, off, short)
-        g = dict((a, b) for a, b in r[3]).get(c)
-        return None if v is None or g is None else {'neg': -v, 'pos': v, 'abs': abs(v)}[g]
-    if k == 'neg':
-        v = _dec_eval(r[1], c, t, off, short)
-        return None if v is None else -v
-    if k == 'trans' and r[3][0] in ('scale', 'offset') and all(tv[0] == 'c' for _, tv in r[3][1]):
-        v = _dec_eval(r[2], c, t, off, short)
-        f = dict((a, F(tv[1])) for a, tv in r[3][1]).get(c)
-        if v is None or f is None:
-            return v
-        return v * f if r[3][0] == 'scale' else v + f
-    if k in ('subset', 'getsubset'):
-        return _dec_eval(r[1], c, t, off, short)
-    raise ValueError(k)
-
-
-def _dec_excused(case, obs):
-    """a failing decimal case belongs to the known finding only if EVERY sample is the exact value up to the tolerance,
-    except samples exactly on an inner entry of a table that starts at a non-zero offset, which may instead carry the
-    value the earlier table segment ends with; at least one such sample exists.  Anything else (a wrong part of a
-    sequence / repetition, NaN, an error, a wrong reported constant) is not excused."""
-    if 'built' not in obs:
-        return False
-    r = case['r']
-    try:
-        chans = _rchannels(r)
-        grid = [F(t) for t in case['grid']]
-        hit = False
-        for p in obs['built']['per']:
-            c = p['c']
-            if c not in chans:
-                continue
-            exact = [_dec_eval(r, c, t, F(0), False) for t in grid]
-            alt = [_dec_eval(r, c, t, F(0), True) for t in grid]
-            if p['cv'] is not None and any(e is None or abs(F(p['cv']) - e) > TOL for e in exact):
-                return False
-            for key in ('gs', 'us'):
-                sres = p.get(key)
-                if sres is None:
-                    continue
-                if 'ok' not in sres or len(sres['ok']) != len(grid):
-                    return False
-                for v, e, a in zip(sres['ok'], exact, alt):
-                    if v is None or e is None:
-                        return False
-                    if abs(F(v) - e) <= TOL:
-                        continue
-                    if a is not None and a != e and abs(F(v) - a) <= TOL:
-                        hit = True
-                        continue
-                    return False
-        return hit
-    except (ValueError, ZeroDivisionError, KeyError, IndexError):
-        return False
 
 
 def _shadowed_linear_after_producer(r):
